@@ -13,39 +13,39 @@ Ltac ev_tt ev :=
       pose proof (Ht n) as H; destruct (eval_thunk n a) as [?v|?e|]; simpl in H |- *; auto
   end.
 
-Lemma num2_ok : forall (P : cand) d n a b k,
-  TT (V TNum d) a -> TT (V TNum d) b ->
+Lemma num2_ok : forall (P : cand) d dr n a b k,
+  TT (V TNum d dr) a -> TT (V TNum d dr) b ->
   (forall x y, ok_out P (k x y)) ->
   ok_out P (Sem.num2 (eval_thunk n) MTyped a b k).
 Proof.
-  intros P d n a b k Ha Hb Hk. unfold Sem.num2, bind.
+  intros P d dr n a b k Ha Hb Hk. unfold Sem.num2, bind.
   pose proof (Ha n) as H1. destruct (eval_thunk n a) as [va|ea|]; simpl in *; auto.
   pose proof (Hb n) as H2. destruct (eval_thunk n b) as [vb|eb|]; simpl in *; auto.
   destruct H1 as [x ->]. destruct H2 as [y ->]. apply Hk.
 Qed.
 
-Lemma prim2 : forall o A B C d,
+Lemma prim2 : forall o A B C d dr,
   arity o = 2 ->
-  (forall a b n, TT (V A d) a -> TT (V B d) b -> ok_out (V C d) (delta (eval_thunk n) MTyped o [a; b])) ->
-  V (TFun A (TFun B C)) d (VPrim o []).
+  (forall a b n, TT (V A d dr) a -> TT (V B d dr) b -> ok_out (V C d dr) (delta (eval_thunk n) MTyped o [a; b])) ->
+  V (TFun A (TFun B C)) d dr (VPrim o []).
 Proof.
-  intros o A B C d Har H. simpl. intros a Ha n. unfold app_out. simpl.
+  intros o A B C d dr Har H. simpl. intros a Ha n. unfold app_out. simpl.
   rewrite Har. simpl.
   intros b Hb n'. unfold app_out. simpl. rewrite Har. simpl. apply H; assumption.
 Qed.
 
-Lemma prim1 : forall o A C d,
+Lemma prim1 : forall o A C d dr,
   arity o = 1 ->
-  (forall a n, TT (V A d) a -> ok_out (V C d) (delta (eval_thunk n) MTyped o [a])) ->
-  V (TFun A C) d (VPrim o []).
+  (forall a n, TT (V A d dr) a -> ok_out (V C d dr) (delta (eval_thunk n) MTyped o [a])) ->
+  V (TFun A C) d dr (VPrim o []).
 Proof.
-  intros o A C d Har H. simpl. intros a Ha n. unfold app_out. simpl.
+  intros o A C d dr Har H. simpl. intros a Ha n. unfold app_out. simpl.
   rewrite Har. simpl. apply H; assumption.
 Qed.
 
 Theorem model_sig_sound : sig_sound model_sig.
 Proof.
-  intros o T d Hs. unfold model_sig in Hs. inversion Hs; subst; clear Hs.
+  intros o T d dr Hs. unfold model_sig in Hs. inversion Hs; subst; clear Hs.
   destruct o.
   - apply prim2; [reflexivity|]. intros. simpl. eapply num2_ok; eauto. intros; simpl; eauto.
   - apply prim2; [reflexivity|]. intros. simpl. eapply num2_ok; eauto. intros; simpl; eauto.
